@@ -41,7 +41,7 @@ var Includes = map[string][]string{
 	// the verdict of verification = trusted policy in force (C02) × rules consulted (C06) ×
 	// threshold counting (C05) × approvals (C09) × every changed path judged (C10) ×
 	// global rules (C11) × recovery gates (C07) × readers that fail closed (C04)
-	"C01": {"C02.effective-only", "C04.errors-propagate", "C04.stepper-checks", "C04.annotation-predicates", "C05.", "C06.match-gates", "C06.enter-once", "C06.pre-order", "C06.unprotected", "C06.matches-exact", "C07.", "C09.", "C10.every-path", "C10.gate", "C11."},
+	"C01": {"C02.effective-only", "C04.errors-propagate", "C04.stepper-checks", "C04.stepper-table", "C04.match-table", "C04.bounds-table", "C04.annotation-predicates", "C05.", "C06.match-gates", "C06.enter-once", "C06.pre-order", "C06.unprotected", "C06.matches-exact", "C07.", "C09.", "C10.every-path", "C10.gate", "C11."},
 	// metadata signatures are counted by SignatureVerifier.Verify
 	"C02": {"C05.sanity", "C05.git-once", "C05.dedup", "C05.success-iff", "C05.pae"},
 	// single chain: the append is a CAS on the parent the number was derived from
@@ -51,12 +51,12 @@ var Includes = map[string][]string{
 	// the walk never examines the last rule of a file: sound only if that is the allow rule
 	"C06": {"C13.allow-last"},
 	// repetition independence: objects handed out by caches are immutable, and only validated links are memoised
-	"C08": {"C05.immutable-verifier", "C04.stepper-checks"},
+	"C08": {"C05.immutable-verifier", "C04.stepper-checks", "C04.stepper-table"},
 	// which rules apply to a path / namespace is decided by Matches
 	"C10": {"C06.matches-exact"},
 	"C11": {"C06.matches-exact"},
 	// which entries are skipped / which annotations refer to an entry is decided by these predicates
-	"C07": {"C04.annotation-predicates"},
+	"C07": {"C04.annotation-predicates", "C04.match-table"},
 	"C15": {"C04.annotation-predicates"},
 	// once per principal
 	"C09": {"C05.consumer", "C05.dedup"},
@@ -64,7 +64,7 @@ var Includes = map[string][]string{
 	"C12": {"C02.new-state", "C02.rollback", "C02.self-verify"},
 	// one CAS-guarded commit per entry
 	"C16": {"C03.one-append", "C03.entry-shape", "C17.cas"},
-	"C17": {"C03.number", "C03.entry-shape", "C04.stepper-checks"},
+	"C17": {"C03.number", "C03.entry-shape", "C04.stepper-checks", "C04.stepper-table"},
 	// names move through the same plumbing calls
 	"C18": {"C10.nul-protocol"},
 	// a stale 'latest' state breaks the prediction only
